@@ -32,4 +32,19 @@ CHECKS = {
                 'mechanistic model and recording error models of the harness; tie is differential.',
         'technique': 'Coq proof (induction over grids/lists) + exact vm_compute and CoqInterval correspondence',
     },
+    'C08': {
+        'text': 'Machine-checked, axiom-free proof (Properties/C08.v) over a two-level model of the fix_parameters '
+                'mechanism shared by the Reduced* classes: exact substitution (fixed values at fixed positions, free '
+                'values in order, restricted gradient), names/counts, fix-then-release restores the state, the state '
+                'after ANY call history is the net name->value map (history independence), and chi\'s mask/value '
+                'buffers with the collapse-to-None rule refine that specification after every history. Tied to /repo on '
+                'every run: 400+ random histories on real ReducedErrorModel / ReducedMechanisticModel / '
+                'ReducedPopulationModel / LogLikelihood / PredictiveModel objects; reported names, counts and the full '
+                'vector recorded by the wrapped model are compared by vm_compute with the code-level model, and every '
+                'evaluation must be bit-identical to the unfixed object at the substituted vector.',
+        'note': 'Trusted: Coq kernel + stdlib, no axioms (Print Assumptions: closed under the global context); model '
+                'Model/Fixing.v hand-written; harness doubles (recording wrappers) and Python dict semantics; the problem '
+                'controller\'s fix_parameters is covered only through the LogLikelihood / population wrappers it delegates to.',
+        'technique': 'Coq proof (refinement of a state machine, induction over histories) + exact vm_compute correspondence',
+    },
 }
